@@ -1,1 +1,5 @@
 import PysamlModel.Props.C02
+#print axioms C02.C02_covered_partial
+#print axioms C02.C02_covered_partial_b
+#print axioms C02.C02_counterexample
+#print axioms Xsw.XNode.beq_sound
